@@ -38,6 +38,9 @@ pub fn err_name(e: &Error) -> String {
     if e.is_eof_error() {
         return "eof".into();
     }
+    if let Error::UnhandledIoError(_) = e {
+        return "err:UnhandledIoError".into();
+    }
     match e {
         Error::InternalDecoderError => "internal".into(),
         other => {
